@@ -82,6 +82,30 @@ class Sym:
 
     __rmul__ = __mul__
 
+    def __pow__(self, e):
+        if isinstance(e, Sym):
+            if any(m != () for m in e.terms):
+                raise NotSymbolic("symbolic exponent")
+            e = e.terms.get((), 0)
+        if isinstance(e, float) and float(e).is_integer():
+            e = int(e)
+        if isinstance(e, Fraction) and e.denominator == 1:
+            e = int(e)
+        if not isinstance(e, int) or isinstance(e, bool):
+            # half-integer power of a single symbol: an integer power of its (uninterpreted) square root
+            fe = Fraction(e).limit_denominator(1000) if isinstance(e, (float, Fraction)) else None
+            if fe is not None and fe.denominator == 2 and len(self.terms) == 1:
+                (mono, coef), = self.terms.items()
+                if coef == 1 and len(mono) == 1 and mono[0][1] == 1:
+                    return _opaque1("sqrt", self) ** int(fe.numerator)
+            raise NotSymbolic(f"non-integer power {e!r}")
+        if e < 0:
+            return Sym.const(1) / (self ** (-e))
+        out = Sym.const(1)
+        for _ in range(e):
+            out = out * self
+        return out
+
     def __truediv__(self, o):
         o = Sym.const(o)
         if len(o.terms) != 1:
@@ -347,6 +371,14 @@ class SymEval:
             if isinstance(n.op, ast.Mult) and (isinstance(a, int) or isinstance(b, int)):
                 return a * b
             raise NotSymbolic("list arithmetic")
+        def _plain(v):
+            return (isinstance(v, (int, float, np.number)) and not isinstance(v, bool)) or (isinstance(v, np.ndarray) and v.dtype != object)
+
+        if _plain(a) and _plain(b) and (isinstance(a, (float, np.floating, np.ndarray)) or isinstance(b, (float, np.floating, np.ndarray))) and isinstance(n.op, (ast.Pow, ast.Mod, ast.FloorDiv)):
+            # purely numeric operands (no symbol involved): ordinary floating-point arithmetic
+            import operator as _op
+
+            return {ast.Pow: _op.pow, ast.Mod: _op.mod, ast.FloorDiv: _op.floordiv}[type(n.op)](a, b)
         lift = lambda v: v if isinstance(v, (np.ndarray, Sym)) else (v if isinstance(v, int) and not isinstance(v, bool) else Sym.const(v))
         a, b = lift(a), lift(b)
         if isinstance(n.op, ast.Add):
@@ -369,12 +401,23 @@ class SymEval:
             return a % b
         if isinstance(n.op, ast.MatMult):
             return np.dot(_arr(a), _arr(b))
+        if isinstance(n.op, ast.Pow):
+            if isinstance(a, int) and isinstance(b, int) and b >= 0:
+                return a ** b
+            if isinstance(a, np.ndarray):
+                out = np.empty(a.shape, dtype=object)
+                for idx in np.ndindex(*a.shape):
+                    out[idx] = Sym.const(a[idx]) ** b
+                return out
+            return Sym.const(a) ** b
         raise NotSymbolic(f"operator {type(n.op).__name__}")
 
     def e_Attribute(self, n):
         if isinstance(n.value, ast.Name) and n.value.id in self.np_names:
             if n.attr == "newaxis":
                 return None
+            if n.attr in ("pi", "e"):
+                return {"pi": float(np.pi), "e": float(np.e)}[n.attr]  # numeric constants (symbolic callers bind their own atom)
             if n.attr in ("float32", "float64", "int32", "int64", "float16", "uint8", "bool_"):
                 return getattr(np, n.attr)  # dtype objects (only ever passed on as dtype arguments)
             raise NotSymbolic(f"numpy attribute {n.attr} used as a value")
